@@ -346,19 +346,58 @@ pub fn drive(log: &mut Log) {
             p.push(*rng.pick(b"bc"));
         }
         let mut texts: Vec<Vec<u8>> = vec![];
-        for _ in 0..6 {
+        for ti in 0..6 {
             let mut t: Vec<u8> = rng.seq(rng.clone().below(10) as usize, b"bc");
-            let extra = if rng.below(3) == 0 { rng.below(4) as usize } else { 0 };
+            // texts 1-2: run longer than in the pattern, nothing substituted (exact hit, k = 0,
+            // with distance 0 at two consecutive columns at the seam)
+            let extra = if ti < 2 { 1 + rng.below(3) as usize } else if rng.below(3) == 0 { rng.below(4) as usize } else { 0 };
             t.extend(vec![b'a'; w * b + extra]);
             t.extend_from_slice(&p[w * b..]);
-            let j = rng.below(t.len() as u64) as usize;
-            t[j] = *rng.pick(b"abc");
+            if ti >= 2 {
+                let j = rng.below(t.len() as u64) as usize;
+                t[j] = *rng.pick(b"abc");
+            }
             let tail = rng.below(6) as usize;
             t.extend(rng.seq(tail, b"bc"));
             texts.push(t);
         }
         log.oblige("long_unary_run_to_block_boundary");
         run_one(log, "ur", &Case { long_impl: true, w, p: &p, tb: &none, texts: &texts, ks: &[0, 1, 2] });
+    }
+
+    // (e) block-based version: the edit budget is used up exactly at a block seam (see
+    //     am_common::seam_case), enumerated over block width, number of blocks, seam, k, the
+    //     length of the repeated symbol run and the kind of the remaining edits. One run = one
+    //     pattern with the text built for it.
+    let reps = log.opts.n(8, 16);
+    for &w in &[8usize, 16] {
+        for blocks in 2..=3usize {
+            for b in 1..blocks {
+                for k in 1..=3usize {
+                    for r in 1..=3usize {
+                        for rep in 0..reps {
+                            case += 1;
+                            if !log.mine(case) {
+                                continue;
+                            }
+                            if w == 16 && (rep > 0 || r == 3) {
+                                continue; // u16 blocks: wider matrices, fewer repetitions
+                            }
+                            if !(blocks == 3 && b == 1) && rep >= 2 && !log.opts.thorough() {
+                                continue; // most repetitions go to the first seam of three-block patterns
+                            }
+                            let mut rng = Rng::new(seed, 14, case);
+                            let alpha: &[u8] = if (rep + k as u64) % 2 == 0 { b"abcd" } else { b"abc" };
+                            let (p, t) = seam_case(&mut rng, w, blocks, b, k, r, rep + r as u64, alpha);
+                            let texts = vec![t];
+                            let ki = k as i64;
+                            log.oblige("long_budget_exhausted_at_seam");
+                            run_one(log, "sb", &Case { long_impl: true, w, p: &p, tb: &none, texts: &texts, ks: &[ki - 1, ki, ki + 1] });
+                        }
+                    }
+                }
+            }
+        }
     }
 }
 
